@@ -28,9 +28,10 @@ type c12case struct {
 	Level    int    `json:"logger_level"`
 	Format   string `json:"format"`
 	Batch    bool   `json:"batch_of_non_terminating,omitempty"`
-	NArgs    int    `json:"n_args"`      // 0, 2 or 4 free-form arguments
-	Extra    string `json:"extra_flags"` // "", "LattrsR", "Lcaller"
-	FlagPath string `json:"flag_path"`   // "" = SetFlags; "scope" = the flags were toggled inside a SaveFlagsAndMod scope that has ended
+	NArgs    int    `json:"n_args"`           // 0, 2 or 4 free-form arguments
+	Extra    string `json:"extra_flags"`      // "", "LattrsR", "Lcaller"
+	Repeat   int    `json:"repeat,omitempty"` // Panic only: the call is issued this many times in the same process (each panic recovered); the LAST outcome is reported
+	FlagPath string `json:"flag_path"`        // "" = SetFlags; "scope" = the flags were toggled inside a SaveFlagsAndMod scope that has ended
 }
 
 var c12argsN = 2
@@ -228,8 +229,7 @@ func c12setup(cas c12case, recFile string) (slog.Logger, *os.File) {
 	}
 	mk := func(l slog.Logger) slog.Logger {
 		l.SetWriter(f).SetErrorWriter(f)
-		l.SetLevel(slog.Level(cas.Level))
-		slog.VerifRestoreModes(false, false)
+		l.SetLevel(slog.Level(cas.Level)) // (Debug/Trace switch the process-wide modes on - deliberately left on)
 		switch cas.Format {
 		case "json":
 			l.SetJSONMode(true)
@@ -291,6 +291,17 @@ func init() {
 			}
 			fmt.Printf("DONE %d\n", n)
 			os.Exit(0)
+		}
+		for k := 1; k < cas.Repeat; k++ {
+			// earlier calls of the same kind in this process; their panics are recovered, nothing is reported
+			func() {
+				defer func() { _ = recover() }()
+				ent.call(l, slog.Level(cas.Sev), c12msg)
+			}()
+		}
+		if cas.Repeat > 1 {
+			// only the last call's record counts
+			os.Truncate(args[1], 0)
 		}
 		ent.call(l, slog.Level(cas.Sev), c12msg)
 		fmt.Println("RETURNED")
@@ -356,7 +367,7 @@ func c12eval(cas c12case, scratch string) (*Violation, string) {
 		return nil, "child infrastructure problem: " + firstLine(stdout)
 	}
 	mk := func(clause, detail string) *Violation {
-		sig := fmt.Sprintf("C12|%s|entry=%s|severity=%s|noint=%v|always=%v|testmode=%v|level=%s|%s|args=%d|extra=%s|flags-via=%s", clause, cas.Entry, levelName(slog.Level(cas.Sev)), cas.NoInt, cas.IntAlw, cas.TestMode, levelName(slog.Level(cas.Level)), cas.Format, cas.NArgs, cas.Extra, cas.FlagPath)
+		sig := fmt.Sprintf("C12|%s|entry=%s|severity=%s|noint=%v|always=%v|testmode=%v|level=%s|%s|args=%d|extra=%s|flags-via=%s|repeat=%d", clause, cas.Entry, levelName(slog.Level(cas.Sev)), cas.NoInt, cas.IntAlw, cas.TestMode, levelName(slog.Level(cas.Level)), cas.Format, cas.NArgs, cas.Extra, cas.FlagPath, cas.Repeat)
 		return mkViolation(sig, clause, detail+fmt.Sprintf(" [child stdout %.200q, exit status %d, record file %.200q]", stdout, exit, record), cas)
 	}
 	L := slog.Level(cas.Level)
@@ -374,7 +385,7 @@ func c12eval(cas c12case, scratch string) (*Violation, string) {
 						continue
 					}
 				}
-				a, fixed := refAdmit(L, sev, false, nil)
+				a, fixed := refAdmit(L, sev, L == slog.DebugLevel, nil)
 				if !fixed {
 					hi++ // the statement does not fix this cell
 				} else if a {
@@ -389,7 +400,7 @@ func c12eval(cas c12case, scratch string) (*Violation, string) {
 		return nil, ""
 	}
 	sev := slog.Level(cas.Sev)
-	admitted, fixed := refAdmit(L, sev, false, nil)
+	admitted, fixed := refAdmit(L, sev, L == slog.DebugLevel, nil)
 	if !fixed {
 		return nil, ""
 	}
@@ -480,8 +491,11 @@ func c12run(c *Ctx) {
 								} else {
 									variants = append(variants, [3]any{2, "", "scope"})
 								}
-								for _, vr := range variants {
+								for vi, vr := range variants {
 									cas := c12case{Entry: e.name, Sev: int(sev), NoInt: noint, IntAlw: alw, TestMode: tm, Level: int(L), Format: f, NArgs: vr[0].(int), Extra: vr[1].(string), FlagPath: vr[2].(string)}
+									if sev == slog.PanicLevel && (c.Thorough() && vi%2 == 0 || !c.Thorough() && vi == 0) {
+										cas.Repeat = 3
+									}
 									c.Count("evaluations", 1)
 									v, problem := c12eval(cas, scratch)
 									if problem != "" {
